@@ -60,6 +60,12 @@ def main():
         finally:
             # the plumbing obligations are independent of the property's own rules: evaluate them even when those aborted (fail closed),
             # so that the report names the plumbing defect and not only "anchor missing"
+            import eqrule
+            if prop in eqrule.EQ_PROPS:
+                try:
+                    eqrule.rule(ctx, rep, prop)
+                except Exception as e:
+                    rep.fail("EQ", "%s|EQ|not-evaluable" % prop, None, "rule EQ could not be evaluated (fail closed): %s: %s" % (type(e).__name__, str(e)[:200]))
             if prop != "C12":
                 import c12
                 try:
